@@ -640,6 +640,148 @@ struct LongRun
     }
 };
 
+// One long history on the heap: >= 70000 (thorough 300000) malloc / free / realloc operations, up to 60 blocks live,
+// fill level and size mix drifting; block placement, alignment, disjointness, realloc prefix after every operation,
+// contents of all live blocks (small ones fully, large ones at both ends) after every operation, fully every 997.
+static void heap_long_history_case()
+{
+    int variant = mc::choose(2);
+    long nops = mc::thorough() ? 300000 : 70000;
+    static const size_t SZH[2][8] = {{0, 1, 64, 65, 128, 200, 1000, 5000}, {8, 63, 64, 129, 256, 700, 70000, 3}};
+    mc::describe("one history of %ld malloc/free/realloc operations, <= 60 live blocks, size set %d", nops, variant);
+    if (Heap::active)
+    {
+        Heap::active->save();
+        Heap::active = nullptr;
+    }
+    memset(A, 0xEE, std::min(g_dirty + 64, ARENA));
+    __brkval = nullptr;
+    __flp = nullptr;
+    if (&__allocation_counter)
+        __allocation_counter = 0;
+    LongRun r;
+    vector<LBlk> &blk = r.blk;
+    const char *ph = "long_history";
+    mc::crash_context("C10.heap.long_history");
+    auto place = [&](long i, char *q, size_t s, int skip) -> bool {
+        if (__brkval && (size_t)(__brkval - A) > r.hw)
+            r.hw = __brkval - A;
+        if (r.hw + 4096 > ARENA)
+            mc::harness_error("C10 heap long history: arena too small");
+        if (q < A + sizeof(size_t) || !__brkval || q + s > __brkval)
+        {
+            r.fail(ph, "outside_arena", mc::fmt("operation %ld: [%ld,%ld) is not inside [heap start, break)", i, (long)(q - A), (long)(q - A + s)));
+            return false;
+        }
+        if ((uintptr_t)q % alignof(size_t))
+        {
+            r.fail(ph, "misaligned", mc::fmt("operation %ld: block at offset %ld", i, (long)(q - A)));
+            return false;
+        }
+        long lo = (q - A) - (long)sizeof(size_t), hi = (q - A) + (long)s;
+        for (int k = 0; k < (int)blk.size(); k++)
+            if (k != skip && lo < blk[k].off + (long)blk[k].req && blk[k].off - (long)sizeof(size_t) < hi)
+            {
+                r.fail(ph, "overlap", mc::fmt("operation %ld: block [%ld,%ld) overlaps the live block (+header) at [%ld,%ld)", i, lo, hi, blk[k].off - 8, blk[k].off + (long)blk[k].req));
+                return false;
+            }
+        return true;
+    };
+    static const unsigned TARGET[] = {10, 55, 30, 3, 59, 20};
+    for (long i = 0; i < nops && !r.failed; i++)
+    {
+        unsigned h = (unsigned)(i * 2654435761u) >> 10, h2 = (unsigned)((i + 29) * 40503u) >> 2;
+        size_t s = SZH[variant][h2 % 8];
+        unsigned target = TARGET[(i / 1013) % 6];
+        int op = h % 10 < 3 && !blk.empty() ? 2 : blk.size() < target ? 0 : 1; // 30% realloc, else drift towards the target fill
+        if (blk.empty())
+            op = 0;
+        if (op == 0 || (op == 2 && blk.size() >= 60 && false))
+        {
+            char *q = (char *)(h2 & 64 ? lin_realloc(nullptr, s) : lin_malloc(s));
+            if (!q)
+            {
+                r.fail(ph, "null", mc::fmt("operation %ld: allocation of %zu bytes returned NULL", i, s));
+                break;
+            }
+            if (!place(i, q, s, -1))
+                break;
+            LBlk b{(long)(q - A), s, (unsigned)(i % 1000003)};
+            for (size_t j = 0; j < s; j++)
+                A[b.off + j] = (char)lpat(b.tag, j);
+            blk.push_back(b);
+        }
+        else if (op == 1)
+        {
+            size_t k = h2 % blk.size();
+            size_t at;
+            if (!r.intact(blk[k], true, at))
+            {
+                r.fail(ph, "contents", mc::fmt("operation %ld: block at offset %ld (requested %zu) changed at byte %zu before it was freed", i, blk[k].off, blk[k].req, at));
+                break;
+            }
+            lin_free(A + blk[k].off);
+            blk[k] = blk.back();
+            blk.pop_back();
+        }
+        else
+        {
+            size_t k = h2 % blk.size();
+            LBlk old = blk[k];
+            char *q = (char *)lin_realloc(A + old.off, s);
+            if (!q && s == 0)
+            {
+                blk[k] = blk.back();
+                blk.pop_back();
+            }
+            else if (!q)
+            {
+                r.fail(ph, "null", mc::fmt("operation %ld: realloc to %zu bytes returned NULL", i, s));
+                break;
+            }
+            else
+            {
+                if (!place(i, q, s, (int)k))
+                    break;
+                size_t common = std::min(old.req, s);
+                for (size_t j = 0; j < common; j++)
+                    if ((unsigned char)q[j] != lpat(old.tag, j))
+                    {
+                        r.fail(ph, "prefix_lost", mc::fmt("operation %ld: realloc(%zu -> %zu) moved %ld -> %ld, byte %zu of the common prefix changed", i, old.req, s, old.off, (long)(q - A), j));
+                        break;
+                    }
+                if (r.failed)
+                    break;
+                LBlk b{(long)(q - A), s, (unsigned)(i % 1000003)};
+                for (size_t j = 0; j < s; j++)
+                    A[b.off + j] = (char)lpat(b.tag, j);
+                blk[k] = b;
+            }
+        }
+        if (!r.all_intact(ph, i % 997 == 0))
+            break;
+        if (i % 997 == 0 || blk.empty())
+        {
+            char *top = __brkval ? __brkval : A;
+            int cnt = 0;
+            for (struct __freelist *f = __flp; f; f = f->nx)
+                if ((char *)f < A || (char *)f + sizeof(struct __freelist) > top || ++cnt > 200)
+                {
+                    r.fail(ph, "free_list_corrupt", mc::fmt("operation %ld: the free list leaves [heap start, break) or does not end", i));
+                    break;
+                }
+            if (!r.failed && blk.empty() && (__flp != nullptr || !(__brkval == nullptr || __brkval == A)))
+                r.fail(ph, "memory_lost", mc::fmt("operation %ld: no block live but the heap is not back at its initial break", i));
+        }
+    }
+    if (!r.failed)
+        r.free_some(1, -1); // free the rest in allocation-table order: the heap must be back at its initial break
+    g_dirty = std::max(g_dirty, r.hw);
+    mc::more_cases((uint64_t)nops - 1, (uint64_t)nops - 1);
+    mc::nontrivial();
+    mc::outcome(mc::fmt("hw %zu %s", r.hw, r.failed ? "violation" : "ok"));
+}
+
 static void heap_long_case()
 {
     int c = mc::choose(3 * 3 * 6 * 2);
@@ -687,6 +829,7 @@ MC_INIT
         mc::add_bfs(mc::fmt("heap_live%d", k), [k] { return std::unique_ptr<mc::Model>(new Heap(k)); }, o);
     };
     mc::add_check("heap_long", heap_long_case);
+    mc::add_check("heap_long_history", heap_long_history_case);
     add(2, 1000, 1000, false); // fix-point (depth 38)
     add(3, 9, 12, false);
     add(4, 8, 10, false);
